@@ -122,6 +122,14 @@ pub enum ChildSpec {
     /// (replacements only) a new Generic over the *same* fd as the child it replaces; a fresh
     /// pipe when there is none
     SameFd,
+    /// a Timer created with Duration::MAX: no deadline, it registers nothing (and takes no
+    /// sub-token) until it is armed later (composite: `ArmChildTimer`)
+    ParkedTimer,
+    /// a user-written sub-source around a Timer that registers nothing at all (no sub-token)
+    /// while it is parked; armed like ParkedTimer, but only between dispatches - a sub-source
+    /// that changes how many tokens it takes moves its later siblings, which is its author's
+    /// business while events are in flight
+    MaybeTimer,
 }
 
 #[derive(Serialize, Deserialize, Clone, Debug, PartialEq)]
@@ -184,6 +192,9 @@ pub enum Op {
     DropPing(Id),
     /// composite: ping child n
     PingChild(Id, u32),
+    /// composite: arm the parked timer child n for `ns` from now (set_duration through the
+    /// wrapper's map(), then update() of the parent)
+    ArmChildTimer(Id, u32, u64),
     /// composite: drop the Ping handle of child n (child closes -> Remove -> transient)
     DropChildPing(Id, u32),
     Send(Id),
@@ -292,7 +303,17 @@ pub enum Op {
     /// on the loop's sources; `max_iters` bounds the iterations (the closure then stops the loop)
     BlockOn { pendings: u32, self_wake: bool, max_iters: u32 },
     /// n ping sources with ids base..base+n, all pinged (many simultaneously ready sources)
-    ManyPings { base: Id, n: u32 },
+    ManyPings {
+        base: Id,
+        n: u32,
+        /// callback script of the first of them
+        #[serde(default)]
+        first_script: Script,
+    },
+    /// remove the sources with ids base..base+n (a burst of short-lived sources going away)
+    RemoveRange { base: Id, n: u32 },
+    /// n idle callbacks with ids base..base+n
+    ManyIdles { base: Id, n: u32 },
 }
 
 pub const INTEREST_NAMES: [&str; 4] = ["EMPTY", "READ", "WRITE", "BOTH"];
@@ -323,6 +344,11 @@ impl Op {
                 }
             }
             Op::InsertIdle { ops, .. } => out.push(ops),
+            Op::ManyPings { first_script, .. } => {
+                for e in first_script.iter_mut() {
+                    out.push(&mut e.ops);
+                }
+            }
             _ => {}
         }
         out
@@ -363,6 +389,7 @@ impl Op {
             Op::ClonePing(_) => "ClonePing",
             Op::DropPing(_) => "DropPing",
             Op::PingChild(..) => "PingChild",
+            Op::ArmChildTimer(..) => "ArmChildTimer",
             Op::DropChildPing(..) => "DropChildPing",
             Op::Send(_) => "Send",
             Op::CloneSender(_) => "CloneSender",
@@ -423,6 +450,8 @@ impl Op {
             Op::TrReplaceLazy(..) => "TrReplaceLazy",
             Op::BlockOn { .. } => "BlockOn",
             Op::ManyPings { .. } => "ManyPings",
+            Op::RemoveRange { .. } => "RemoveRange",
+            Op::ManyIdles { .. } => "ManyIdles",
         }
     }
 }
